@@ -262,6 +262,35 @@ def renumbered_with_h(rng, mol, href):
     return mr, ref, mp
 
 
+def stale_labels(mol):
+    """observables derived from the structure that a conversion must leave current: the labels `calc_labels` writes
+    (hybridization, neighbours, heteroatoms, explicit hydrogens, ring marks of atoms and bonds) and the cached string.
+    Compared with a copy of the same object whose caches were flushed and labels recalculated (same dict orders and stereo
+    marks, so the canonical string must be identical; the values of hybridization / neighbours themselves are tied to the
+    Lean label model by the `lab` stream). Returns a list of differences (empty = coherent)."""
+    fresh = mol.copy()
+    fresh.flush_cache()
+    fresh.calc_labels()
+    out = []
+    for n, a in mol.atoms():
+        b = fresh._atoms[n]
+        for name in ('hybridization', 'neighbors', 'heteroatoms', 'explicit_hydrogens', 'in_ring', 'ring_sizes'):
+            x, y = getattr(a, name), getattr(b, name)
+            if x != y:
+                out.append(f'atom {n} {name}: {x!r} (fresh: {y!r})')
+    for n, m, b in mol.bonds():
+        if bool(b.in_ring) != bool(fresh._bonds[n][m].in_ring):
+            out.append(f'bond {n}-{m} in_ring: {b.in_ring!r}')
+    if not out:
+        try:
+            s1, s2 = str(mol), str(fresh)
+        except Exception as e:  # noqa
+            return [f'str() raised {type(e).__name__}']
+        if s1 != s2:
+            out.append(f'str(): {s1} (fresh: {s2})')
+    return out[:4]
+
+
 def all_h_defined(mol):
     return all(a.implicit_hydrogens is not None for _, a in mol.atoms())
 
@@ -462,6 +491,98 @@ def gen_kekule(rng):
     try:
         m = molgen.from_edges(edges + extra, elements, orders, charges)
     except Exception:
+        return None
+    return m
+
+
+def gen_tautomer(rng):
+    """a member of the family of fused aza-heterocycles in an arbitrary (often unusual) tautomeric form: skeletons 6-5, 6-6-5,
+    6-5-6, 5-6-5 (random fusion edges), exactly one ring N-H placed in a six-membered ring, one or two further pyridine-type
+    nitrogens, zero to two ring carbonyls; the remaining ring atoms carry a perfect matching of double bonds (found by
+    backtracking), so the result is a valence-valid Kekulé structure. Returns a MoleculeContainer or None."""
+    sizes = rng.choice([(6, 5), (6, 5), (6, 6, 5), (6, 5, 6), (5, 6, 5), (6, 5, 5)])
+    edges, nxt, rings = [], 1, []
+    for size in sizes:
+        if not rings:
+            r = list(range(1, size + 1))
+            nxt = size + 1
+            edges += [(r[i], r[(i + 1) % size]) for i in range(size)]
+        else:
+            deg = {}
+            for a, b in edges:
+                deg[a] = deg.get(a, 0) + 1
+                deg[b] = deg.get(b, 0) + 1
+            last = rings[-1]
+            free = [(a, b) for a, b in edges if deg[a] == 2 and deg[b] == 2 and a in last and b in last]
+            if not free:
+                return None
+            a, b = rng.choice(free)
+            new = list(range(nxt, nxt + size - 2))
+            nxt += size - 2
+            r = [a, b] + new
+            path = [b] + new + [a]
+            edges += [(path[k], path[k + 1]) for k in range(len(path) - 1)]
+        rings.append(r)
+    atoms = sorted({v for e in edges for v in e})
+    deg = {v: 0 for v in atoms}
+    nb = {v: set() for v in atoms}
+    for a, b in edges:
+        deg[a] += 1
+        deg[b] += 1
+        nb[a].add(b)
+        nb[b].add(a)
+    two = [v for v in atoms if deg[v] == 2]
+    six = [v for r in rings if len(r) == 6 for v in r if deg[v] == 2]
+    if not six:
+        return None
+    nh = rng.choice(six)
+    others = [v for v in two if v != nh]
+    rng.shuffle(others)
+    n_n, n_co = rng.choice([1, 1, 2]), rng.choice([0, 1, 1, 2])
+    ns = set(others[:n_n])
+    cos = set(others[n_n:n_n + n_co])
+    todo = [v for v in atoms if v != nh and v not in cos]
+    # perfect matching of `todo` by backtracking
+    match = {}
+
+    def rec(rest):
+        if not rest:
+            return True
+        v = rest[0]
+        for w in nb[v]:
+            if w in rest:
+                match[v] = w
+                if rec([x for x in rest if x not in (v, w)]):
+                    return True
+                del match[v]
+        return False
+    order = todo[:]
+    rng.shuffle(order)
+    if len(todo) % 2 or not rec(order):
+        return None
+    elements = {v: 'C' for v in atoms}
+    for v in ns | {nh}:
+        elements[v] = 'N'
+    orders = {}
+    for a, b in edges:
+        orders[(a, b)] = 2 if match.get(a) == b or match.get(b) == a else 1
+    extra = []
+    for v in cos:
+        extra.append((v, nxt))
+        orders[(v, nxt)] = 2
+        elements[nxt] = 'O'
+        nxt += 1
+    if rng.random() < 0.3:
+        c = rng.choice([v for v in two if elements[v] == 'C' and v not in cos] or [None])
+        if c:
+            extra.append((c, nxt))
+            elements[nxt] = rng.choice(['C', 'N', 'O', 'Cl'])
+            nxt += 1
+    try:
+        m = molgen.from_edges(edges + extra, elements, orders, {})
+    except Exception:
+        return None
+    if m.check_valence():
         return None
     return m
 
@@ -811,6 +932,10 @@ def diff_snap(a, b):
     return '; '.join(d[:6])
 
 
+def labels_line(mol):
+    return ';'.join(f'{n}:{a.hybridization}:{a.neighbors}' for n, a in mol.atoms())
+
+
 def mol_cases(tag, mol, batch, rel, rng, renum=True, dist=None, known=None, extra_renum=0):
     """Append the K/R request lines of one molecule to `batch`; report relational disagreements found on the real objects
     through `rel(name, detail, ints)`. Returns True when the molecule is non-trivial (has an aromatic / aromatised ring)."""
@@ -897,6 +1022,14 @@ def mol_cases(tag, mol, batch, rel, rng, renum=True, dist=None, known=None, extr
             rel('kekule-not-idempotent', f'{tag}: kekule() on a localised form: {st} {ret!r} {diff_snap(src, k)}', ints0)
             return False
     # ---- k is a Kekulé form now
+    def coherent(x, what):
+        # labels / cached string current after the conversion (K against the Lean label model + independent rebuild)
+        batch.add(line('lab', wire.mol_to_ints(x)), labels_line(x), 'K', 'labels-after-' + what, (tag, wire.mol_to_ints(x)))
+        sl = stale_labels(x)
+        if sl:
+            rel('stale-labels-after-' + what, f'{tag}: {sl}', ints0)
+    if nontrivial:
+        coherent(k, 'kekule')
     k2 = k.copy()
     st, ret = outcome(lambda: k2.kekule())
     if st != 'ok' or ret is not False or not eq_snap(k, k2):
@@ -918,6 +1051,9 @@ def mol_cases(tag, mol, batch, rel, rng, renum=True, dist=None, known=None, extr
         batch.add(line('tnf', kints, sssr_ints(k)), f'{int(bool(retn))} | {wire.mol_to_line(tn)}', 'KF', 'thiele-nofix-model', (tag, kints))
         batch.add(line('thr', kints, wire.mol_to_ints(tn), sssr_ints(k)), 'ok', 'R', 'thiele-only-candidate-rings', (tag, kints))
     batch.add(line('thr', kints, wire.mol_to_ints(t), sssr_ints(k)), 'ok', 'R', 'thiele-only-candidate-rings', (tag, kints))
+    coherent(t, 'thiele')
+    if st == 'ok':
+        coherent(tn, 'thiele-nofix')
     if not ret:
         if not eq_snap(k, t):
             if tautomer_fix_only(k, t) and known is not None:
@@ -952,6 +1088,12 @@ def mol_cases(tag, mol, batch, rel, rng, renum=True, dist=None, known=None, extr
         rel('kekule-of-thiele-fails', f'{tag}: kekule(thiele(k)) {st}', tints)
         return True
     batch.add(line('kekn', tints, wire.mol_to_ints(k3), sssr_ints(t)), 'ok', 'R', 'kekule-of-thiele', (tag, tints))
+    coherent(k3, 'kekule-of-thiele')
+    # the aromatic form must be what the plain (no tautomer fix) aromatisation makes of its own Kekulé form
+    tn3 = k3.copy()
+    st, _ = outcome(lambda: tn3.thiele(fix_tautomers=False))
+    if st != 'ok' or not eq_snap(t, tn3):
+        rel('thiele-inconsistent-with-own-kekule-form', f'{tag}: thiele(kekule(t), fix_tautomers=False) != t: {st} {diff_snap(t, tn3)}', kints)
     t3 = k3.copy()
     st, ret = outcome(lambda: t3.thiele())
     if st != 'ok' or not eq_snap(t, t3):
@@ -1171,6 +1313,10 @@ def forms_of(tag, mol, fints, sssr, batch, rel, d, aromatic=None, known=None, re
     ref = aromatic
     for i, f in enumerate(forms):
         batch.add(line('kekn', fints, wire.mol_to_ints(f), sssr), 'ok', 'R', 'enumerated-form', (tag, fints))
+        if i < 2:
+            sl = stale_labels(f)
+            if sl:
+                rel('stale-labels-after-enumerate_kekule', f'{tag}: {sl}', fints)
         ft = f.copy()
         st, ret = outcome(lambda: ft.thiele())
         if st != 'ok':
@@ -1388,6 +1534,10 @@ def correspond(ctx):
         m = gen_kekule(rng)
         if m is not None:
             mols.append((f'gen-kekule[{i}]', m))
+    for i in range(420 if ctx.quick else 5000):
+        m = gen_tautomer(rng)
+        if m is not None:
+            mols.append((f'gen-tautomer[{i}]', m))
     for i in range(240 if ctx.quick else 1500):
         wild = i % 2 == 1
         try:
@@ -1531,6 +1681,14 @@ def property_failures(mol, rng=None, enum=True, perms=1):
         add('kekule-of-thiele-fails', st)
         return fails
     fails += kekule_clauses(t, k3, 'kekule-of-thiele')
+    tn3 = k3.copy()
+    st, _ = outcome(lambda: tn3.thiele(fix_tautomers=False))
+    if st != 'ok' or not eq_snap(t, tn3):
+        add('thiele-inconsistent-with-own-kekule-form', f'{st} {diff_snap(t, tn3)}')
+    for what, x in (('kekule', k), ('thiele', t), ('kekule-of-thiele', k3)):
+        sl = stale_labels(x)
+        if sl:
+            add('stale-labels-after-' + what, str(sl))
     t3 = k3.copy()
     st, _ = outcome(lambda: t3.thiele())
     if st != 'ok' or not eq_snap(t, t3):
@@ -1700,7 +1858,8 @@ def search(ctx):
         if time.time() - t0 > budget:
             break
         if m is None:
-            m = gen_kekule(rng) if rng.random() < 0.7 else gen_arom(rng)
+            x = rng.random()
+            m = gen_kekule(rng) if x < 0.45 else gen_tautomer(rng) if x < 0.8 else gen_arom(rng)
             if m is None or (has_aromatic(m) and not valid_kekule_exists(m)):
                 continue
         try:
